@@ -722,7 +722,7 @@ func (fx *FuncExec) lockTarget(mu Val) (key string, obj string, owner types.Type
 	if l == nil || l.Kind != LField {
 		return "", "", nil, nil
 	}
-	key = fx.locString(mu.Loc)
+	key = fx.canonKey(fx.locString(mu.Loc))
 	ts = fx.V.contracts.Types[typeKey(l.Owner)]
 	return key, l.Ref, l.Owner, ts
 }
@@ -914,7 +914,7 @@ func (fx *FuncExec) checkGuard(st *State, addr Val, pos token.Pos, rw string) {
 		return
 	}
 	mi := fieldIndex(l.OwnerS, ts.GuardedBy)
-	key := fmt.Sprintf("%s[%s]", fieldKey(l.Owner, l.OwnerS, mi), l.Ref)
+	key := fx.canonKey(fmt.Sprintf("%s[%s]", fieldKey(l.Owner, l.OwnerS, mi), l.Ref))
 	held, ok := st.locks[key]
 	if !ok {
 		held = "false"
@@ -998,3 +998,12 @@ func (fx *FuncExec) staticOrd(kind string) int {
 }
 
 var reSelfField = regexp.MustCompile(`self\.(\$?[A-Za-z_][A-Za-z0-9_]*)`)
+
+// canonKey unfolds every definition in a lock key so that two loads of the same pointer (which get
+// different names) denote the same lock.
+func (fx *FuncExec) canonKey(k string) string {
+	if x, ok := fx.em.expandStable(k, -1); ok {
+		return x
+	}
+	return k
+}
